@@ -151,6 +151,65 @@ def payload_histories(rng, props, n, full=False):
     return out
 
 
+def denied_retry_histories(rng, props, n):
+    """One slot.  X is challenged while the slot is free, Y takes the slot, X's response is refused (the denial is lost or arrives
+    late), Y leaves, a delayed copy of X's request re-opens the half-open entry and X's next response is admitted: every reply the
+    server sealed for X on the way -- challenges, the denial, the first keep-alive, payloads -- under X's key must carry its own
+    sequence number (C17), X ends up connected (C18), the table never holds two sessions (C10)."""
+    out = []
+    for i in range(n):
+        dt = rng.choice([100, 250])
+        sc = NS("denied-retry-%d" % i, props, max_clients=1)
+        sc.token("TX", 10, timeout_s=rng.choice([5, -1]), expire_s=60)
+        sc.token("TY", 20, timeout_s=5, expire_s=60)
+        sc.client("x", "TX", 1)
+        sc.client("y", "TY", 2)
+        sc.cupdate("x", dt, as_="xreq")
+        sc.sdeliver("xreq", as_="xchal")
+        sc.cdeliver("x", "xchal")
+        sc.pump(["y"], dt=250, n=3)                       # y connects and takes the only slot
+        # x answers: refused, once or several times; the denials are lost (or the last one arrives after x was admitted)
+        dens = []
+        for _ in range(rng.randint(1, 3)):
+            r = sc.name("xresp")
+            sc.cupdate("x", 250, as_=r)
+            d = sc.name("den")
+            sc.sdeliver(r, as_=d)
+            dens.append(d)
+            if rng.random() < 0.5:
+                # a retransmitted request while the server is full: another denial, sealed with the same key
+                d2 = sc.name("den")
+                sc.sdeliver("xreq", as_=d2)
+                dens.append(d2)
+        # y leaves
+        how = rng.choice(["client", "server"])
+        if how == "client":
+            sc.add(a="cdisconnect", c="y", as_="ybye")
+            sc.sdeliver("ybye")
+        else:
+            sc.add(a="sdisconnect", id=20)
+        sc.supdate(dt)
+        # the delayed copy of x's request re-opens the half-open entry; x's next response is admitted
+        sc.sdeliver("xreq", as_="xchal2")
+        if rng.random() < 0.5:
+            sc.cdeliver("x", "xchal2")
+        r = sc.name("xresp")
+        sc.cupdate("x", 250, as_=r)
+        ka = sc.name("ka")
+        sc.sdeliver(r, as_=ka)
+        sc.cdeliver("x", ka)
+        if rng.random() < 0.5 and dens:
+            sc.cdeliver("x", rng.choice(dens))            # a late denial: x is connected, it must not matter
+        for _ in range(rng.randint(1, 3)):
+            nm = sc.name("sp")
+            sc.spayload(10, 20, as_=nm)
+            sc.cdeliver("x", nm)
+        sc.heal(["x"], 2 * (2 * -(-250 // dt) + 2) + 4)
+        sc.pump(["x"], dt=dt, n=2 * (2 * -(-250 // dt) + 2) + 6)
+        out.append(sc.s)
+    return out
+
+
 def takeover_histories(rng, props, n):
     """A client gives up in the middle of its handshake after k datagrams (its Disconnect, sealed with the keys of ITS token,
     reaches the server's half-open entry, or is lost), and a restarted client -- a fresh token for the same id, the same
